@@ -54,7 +54,23 @@ pub fn gen_rel(args: &Args) {
             _ => "mixed",
         };
         let mut g = Gen::new(s, cfg_for(fam));
-        let base = g.program();
+        let mut base = g.program();
+        if set != "names" && i % 4 == 3 {
+            // directed: a variable-op-literal shape inside a function, applied to a value of EVERY type
+            // (the fused instructions must report the same errors as the plain ones)
+            use crate::ast::{call, id, infix, Expr};
+            let ex = crate::semfam::exemplars();
+            let (_, arg) = ex[(i as usize / 4) % ex.len()].clone();
+            let op = crate::semfam::ALL_OPS[(i as usize / 4 / ex.len()) % 11];
+            let lit = Expr::Int([0, 1, 7][(i as usize / 7) % 3]);
+            let body = if (i / 4) % 2 == 0 { infix(op, id("x"), lit) } else { infix(op, lit, id("x")) };
+            base = vec![
+                Stmt::Expr(Expr::Func { name: "g".into(), params: vec![], body: vec![Stmt::Expr(Expr::Int(2))] }),
+                Stmt::Expr(Expr::Func { name: "g2".into(), params: vec![], body: vec![Stmt::Expr(Expr::Int(1))] }),
+                Stmt::Expr(Expr::Func { name: "h".into(), params: vec!["x".into()], body: vec![Stmt::Expr(body)] }),
+                Stmt::Expr(call("h", vec![arg])),
+            ];
+        }
         let var: Option<Vec<Stmt>> = match kind {
             "rename" => {
                 let names: Vec<String> = xform::all_names(&base)
